@@ -348,6 +348,9 @@ def generate(rng, tier):
         names = list(m.ints())
         rng.shuffle(names)
         sub = names[:rng.randint(1, len(names))]      # may not cover all variables
+        if rng.random() < 0.3:
+            # a constant among the search variables (MiniZinc emits these after fixing a variable)
+            sub.insert(rng.randint(0, len(sub)), str(rng.randint(-2, 6)))
         anno = " :: int_search([%s], %s, %s, complete)" % (", ".join(sub), rng.choice(VARSEL), rng.choice(VALSEL))
         bools = list(m.bools())
         if bools and rng.random() < 0.5:
